@@ -100,6 +100,8 @@ InitM(T) ==
    lock    |-> [s \in Ids(T) |-> 0],                \* copy: process inside once.Do of the tail element (0 = none)
    cur     |-> [s \in Ids(T) |-> 1],                \* child: position in the list, 0 = nil (closed)
    closedNum |-> [s \in Ids(T) |-> 0],
+   crd     |-> [s \in Ids(T) |-> 0 - 1],           \* child: value of closedNum it read (only used by the seeded-defect variant of
+                                                   \* Streams.tla in which the atomic.AddUint32 is a separate read and write)
    live    |-> [s \in Ids(T) |-> IF s \in TopMerges(T) THEN MStreams(T, s) ELSE {}],           \* chosenList
    fst     |-> [s \in Ids(T) |-> IF s \in Fwd(T) THEN "recv" ELSE "none"]]                     \* forwarder goroutine
 
@@ -261,4 +263,20 @@ Obs(G, T, e) ==
   ELSE IF e.a \notin Ids(T) THEN Bad(G, "malformed-trace")
   ELSE IF e.ev = "call" THEN (IF G.pc[EndOf(T, e)] # "" THEN Bad(G, "malformed-trace") ELSE ObsE([G EXCEPT !.pc[EndOf(T, e)] = e.op], T, e))
   ELSE IF G.pc[EndOf(T, e)] # e.op THEN Bad(G, "malformed-trace") ELSE ObsE([G EXCEPT !.pc[EndOf(T, e)] = ""], T, e)
+\* A `burst` line summarises one round of the barrier driver on a FRESH instance of the case's tree: every leaf's Close was called by
+\* its own goroutine, all released together, all returned; then Send(v) was called once on pipe e.a and returned e.res.  It is judged by
+\* replaying exactly these calls and returns through Obs on a fresh ghost (close-propagation clause: every derived reader closed =>
+\* the writer is told on its next send, i.e. the source was closed and the producer released).
+RECURSIVE CloseAll(_, _, _)
+CloseAll(G, T, S) == IF S = {} THEN G
+                     ELSE LET x == CHOOSE y \in S : TRUE IN
+                          CloseAll(Obs(Obs(G, T, [ev |-> "call", a |-> x, op |-> "close", v |-> 0, res |-> ""]), T,
+                                       [ev |-> "ret", a |-> x, op |-> "close", v |-> 0, res |-> "ok"]), T, S \ {x})
+ObsBurst(G, T, e) ==
+  IF G.bad # "" THEN G
+  ELSE IF e.a \notin Pipes(T) THEN Bad(G, "malformed-trace")
+  ELSE LET G1 == CloseAll(InitG(T, G.id), T, Leaves(T))
+           G2 == Obs(G1, T, [ev |-> "call", a |-> e.a, op |-> "send", v |-> e.v, res |-> ""])
+           G3 == Obs(G2, T, [ev |-> "ret", a |-> e.a, op |-> "send", v |-> 0, res |-> e.res])
+       IN IF G3.bad # "" THEN Bad(G, G3.bad) ELSE G
 ================================================================================
